@@ -684,6 +684,81 @@ Proof.
   - rewrite E in A. split; assumption.
 Qed.
 
+(* ----------------------------------- (3'') C fmod(x, y), every finite x and y <> 0 *)
+Lemma rem_fmt x y : fmt x -> fmt y -> fmt (x - IZR (Ztrunc (x / y)) * y).
+Proof.
+  intros Fx Fy. apply (format_REM radix2 fexp64 Ztrunc _ x y); try assumption.
+  intro Hs. apply Rabs_lt_inv in Hs. unfold Ztrunc.
+  destruct (Rlt_bool_spec (x / y) 0).
+  - apply Zceil_imp. simpl. lra.
+  - apply Zfloor_imp. simpl. lra.
+Qed.
+
+Lemma rem_abs_le x y : y <> 0 -> Rabs (x - IZR (Ztrunc (x / y)) * y) <= Rabs x.
+Proof.
+  intro Hy. replace (x - IZR (Ztrunc (x / y)) * y) with ((x / y - IZR (Ztrunc (x / y))) * y) by (field; exact Hy).
+  rewrite Rabs_mult. pose proof (frac_abs_le (x / y)) as H. pose proof (Rabs_pos y) as Hp.
+  replace (Rabs x) with (Rabs (x / y) * Rabs y).
+  - apply Rmult_le_compat_r; assumption.
+  - rewrite <- Rabs_mult. f_equal. field. exact Hy.
+Qed.
+
+Theorem b64_fmod_slow_correct x y : fin x -> fin y -> RV y <> 0 ->
+  RV (b64_fmod_slow x y) = RV x - IZR (Ztrunc (RV x / RV y)) * RV y /\ fin (b64_fmod_slow x y).
+Proof.
+  intros Fx Fy Hy0. unfold b64_fmod_slow.
+  destruct (parts_spec x Fx) as (mx & ex & -> & Hx). destruct (parts_spec y Fy) as (my & ey & -> & Hy).
+  assert (my <> 0)%Z as Hmy by (intro E; apply Hy0; rewrite Hy, E; ring).
+  destruct (Z.eqb_spec my 0) as [Bad | _]; [contradiction|].
+  destruct (Z.eqb_spec mx 0) as [Z0 | NZ].
+  - split; [| exact Fx]. rewrite Hx, Z0. rewrite !Rmult_0_l. unfold Rdiv. rewrite Rmult_0_l. rewrite (Ztrunc_IZR 0). lra.
+  - set (e := Z.min ex ey). assert (e <= ex)%Z as He1 by (unfold e; lia). assert (e <= ey)%Z as He2 by (unfold e; lia).
+    set (X := Z.shiftl mx (ex - e)). set (Y := Z.shiftl my (ey - e)).
+    assert (RV x = IZR X * bpow radix2 e) as HxX.
+    { rewrite Hx. unfold X. rewrite Z.shiftl_mul_pow2 by lia. rewrite mult_IZR.
+      change (2 ^ (ex - e))%Z with (radix2 ^ (ex - e))%Z.
+      rewrite (IZR_Zpower radix2 (ex - e)) by lia. rewrite Rmult_assoc, <- bpow_plus. do 2 f_equal. lia. }
+    assert (RV y = IZR Y * bpow radix2 e) as HyY.
+    { rewrite Hy. unfold Y. rewrite Z.shiftl_mul_pow2 by lia. rewrite mult_IZR.
+      change (2 ^ (ey - e))%Z with (radix2 ^ (ey - e))%Z.
+      rewrite (IZR_Zpower radix2 (ey - e)) by lia. rewrite Rmult_assoc, <- bpow_plus. do 2 f_equal. lia. }
+    assert (Y <> 0)%Z as HY0.
+    { unfold Y. rewrite Z.shiftl_mul_pow2 by lia. apply Z.neq_mul_0. split; [exact Hmy | apply Z.pow_nonzero; lia]. }
+    assert (IZR Y <> 0) as HYr by (apply IZR_neq; exact HY0).
+    pose proof (bpow_gt_0 radix2 e) as Hbe.
+    assert (RV x / RV y = IZR X / IZR Y) as Hdiv by (rewrite HxX, HyY; field; split; lra).
+    assert (RV x - IZR (Ztrunc (RV x / RV y)) * RV y = IZR (Z.rem X Y) * bpow radix2 e) as Hfr.
+    { rewrite Hdiv, Ztrunc_div by exact HY0. rewrite HxX, HyY.
+      pose proof (Z.quot_rem' X Y) as Hq.
+      assert (IZR X = IZR Y * IZR (Z.quot X Y) + IZR (Z.rem X Y)) as Hq' by (rewrite <- mult_IZR, <- plus_IZR; f_equal; exact Hq).
+      rewrite Hq'. ring. }
+    destruct (Z.eqb_spec (Z.rem X Y) 0) as [R0 | RN0].
+    + rewrite Hfr, R0, Rmult_0_l. destruct (get_sign x).
+      * split; [rewrite RV_SF; vm_compute Prim2SF; reflexivity | apply fin_prim; reflexivity].
+      * split; [exact RV_zero | exact fin_zero].
+    + assert (RN (IZR (Z.rem X Y) * bpow radix2 e) = IZR (Z.rem X Y) * bpow radix2 e) as E.
+      { apply round_generic; [apply valid_rnd_N|]. rewrite <- Hfr. apply rem_fmt; apply fmt_RV. }
+      destruct (of_ZE_R (Z.rem X Y) e) as [A B].
+      * rewrite E, <- Hfr. eapply Rle_lt_trans; [apply rem_abs_le; exact Hy0 | apply RV_lt_emax].
+      * rewrite A, E, Hfr. split; [reflexivity | exact B].
+Qed.
+
+(* C fmod as used by the model (fast path for y = 1 included): exact remainder of the
+   truncated quotient, for all finite x, y with y <> 0 *)
+Theorem b64_fmod_correct x y : fin x -> fin y -> RV y <> 0 ->
+  RV (b64_fmod x y) = RV x - IZR (Ztrunc (RV x / RV y)) * RV y /\ fin (b64_fmod x y).
+Proof.
+  intros Fx Fy Hy0. unfold b64_fmod.
+  assert (fin (abs x)) as Fa by (apply abs_fin; exact Fx).
+  rewrite (eqb_R y 1 Fy fin_one), RV_one, (ltb_R (abs x) c2p51 Fa fin_c2p51), abs_R, RV_c2p51.
+  destruct (Req_bool_spec (RV y) 1) as [Y1 | Yn]; [| apply b64_fmod_slow_correct; assumption].
+  destruct (Rlt_bool_spec (Rabs (RV x)) 2251799813685248) as [Hs | Hl]; [| apply b64_fmod_slow_correct; assumption].
+  cbv [andb]. generalize (b64_fmod_1_correct x Fx Hs). unfold b64_fmod.
+  change (1 =? 1)%float with true. rewrite andb_true_l.
+  rewrite (ltb_R (abs x) c2p51 Fa fin_c2p51), abs_R, RV_c2p51, Rlt_bool_true by exact Hs.
+  intros (A & B & _). rewrite Y1. unfold Rdiv. rewrite Rinv_1, !Rmult_1_r. split; assumption.
+Qed.
+
 (* ------------------------------------------------------------- assumptions *)
 (* stdlib reals (ClassicalDedekindReals, functional extensionality), classic, and the
    FloatAxioms / Uint63 specification axioms of the primitive types that Flocq's bridge uses *)
@@ -691,6 +766,7 @@ Print Assumptions b64_floor_correct.
 Print Assumptions b64_trunc_correct.
 Print Assumptions b64_fmod_1_correct.
 Print Assumptions b64_fmod_1_value.
+Print Assumptions b64_fmod_correct.
 Print Assumptions b64_of_Z_correct.
 Print Assumptions b64_round_correct.
 Print Assumptions reduce_kernel.
